@@ -38,6 +38,22 @@ func runC14(r *Run) {
 	c14R1(r, ro)
 	c14R2(r, ro)
 	c14R3(r, ro)
+	// R-4 (added after seeded change C14-2): the pool discipline of C10 R-3 — the argument slice of a
+	// native call started with `go` must not go back to the pool while the new goroutine can still read it.
+	found := 0
+	for _, fi := range r.P.Funcs("internal/runtime") {
+		if r.P.isTestFile(fi.File) {
+			continue
+		}
+		f := r.P.SSAFunc(fi)
+		if f == nil {
+			continue
+		}
+		for _, fn := range append([]*ssa.Function{f}, f.AnonFuncs...) {
+			c10PoolDiscipline(r, "R-4", ro, fn, &found)
+		}
+	}
+	r.Anchor("R-4", "a function taking a slice from NativeFunction.argsPool (callNative)", found > 0)
 }
 
 // c14ModuleFuncs lists the SSA functions (with anonymous ones) of the non-test module source.
